@@ -269,11 +269,23 @@ def judge(case):
             except Exception as e:
                 return "call %d: keyword arguments were not refused with ValueError (got %s: %s)" % (ci, type(e).__name__, e), info
             return "call %d: keyword arguments were accepted" % ci, info
+        g = call.get("guard")
         try:
-            got = rt.snark(traced_body)(*args)
+            if g is None:
+                got = rt.snark(traced_body)(*args)
+            else:
+                # the call sits in a region guarded by a secret condition: what becomes public cannot depend on its value
+                box = {}
+
+                def region():
+                    box["got"] = rt.snark(traced_body)(*args)
+                    return rt.PrivVal(0)
+                rt.guarded(rt.PrivVal(g))(region)()
+                got = box["got"]
+                n0 += 1          # the condition itself is a private value
         except Exception as e:
             return "call %d raised %s: %s" % (ci, type(e).__name__, e), info
-        if not plain_equal(got, expected_plain):
+        if g != 0 and not plain_equal(got, expected_plain):       # inside a dead region the values are don't-cares
             return "call %d returned %r, the undecorated function returns %r" % (ci, got, expected_plain), info
         # expected public values
         exp_in = []
@@ -291,15 +303,20 @@ def judge(case):
             if t in "IBF":
                 exp_out.append(ir.pyval(x, t))
                 sec_kinds.add(t)
-        pubs = [(i, rec.vals[i]) for i in range(n0, len(rec.vals)) if rec.kinds[i] == "pub"]
+        pubs = [(i, rec.vals[i]) for i in range(n0 - (1 if g is not None else 0), len(rec.vals)) if rec.kinds[i] == "pub"]
         got_vals = [int(v) for _, v in pubs]
         want = exp_in + exp_out
-        if [v % rec.P for v in got_vals] != [v % rec.P for v in want]:
-            return ("call %d: public values created are %r, expected arguments %r followed by results %r" % (
-                ci, got_vals, exp_in, exp_out)), info
+        if g == 0:
+            # dead region: the result values are don't-cares, but WHICH values become public is fixed by the call
+            mismatch = len(got_vals) != len(want) or [v % rec.P for v in got_vals[:len(exp_in)]] != [v % rec.P for v in exp_in]
+        else:
+            mismatch = [v % rec.P for v in got_vals] != [v % rec.P for v in want]
+        if mismatch:
+            return ("call %d%s: public values created are %r, expected arguments %r followed by results %r" % (
+                ci, "" if g is None else " inside a region guarded by a secret %d" % g, got_vals, exp_in, exp_out)), info
         # every output wire is pinned by a constraint
         snap = rec.snapshot()
-        for idx, _ in pubs[len(exp_in):]:
+        for idx, _ in (pubs[len(exp_in):] if g != 0 else []):      # under a false guard the tie is switched off by design
             fixed = {i: v % rec.P for i, v in enumerate(rec.vals) if i != idx}
             sols, status, nodes = r1cs.solve_all(snap["cons"], rec.P, fixed, [idx], limit=3, budget=2000,
                                                  candidates=lambda v: [0, 1, rec.vals[v] + 1])
@@ -335,7 +352,8 @@ def shard(seed, n_examples):
                 if args[j][0] in ("list", "tuple", "dict", "rep", "ntuple", "odict", "dlist"):
                     args.insert(draw(st.integers(j + 1, len(args))), ["same", j])          # f(v, v)
             leaves = list(numeric_leaves(["tuple", resolve_same(args)]))
-            calls.append({"args": args, "result": draw_result(draw, leaves), "kwargs": draw(st.integers(0, 9)) == 0})
+            calls.append({"args": args, "result": draw_result(draw, leaves), "kwargs": draw(st.integers(0, 9)) == 0,
+                          "guard": draw(st.sampled_from([None, None, None, 0, 1]))})
         case = {"p": draw(st.sampled_from(sorted(REAL_FIELDS))), "calls": calls}
         msg, info = judge(case)
         nt = bool(info.get("mixed")) or (len(calls) >= 2 and info.get("out", 0) >= 1)
@@ -344,6 +362,9 @@ def shard(seed, n_examples):
             labels.append("mixed-types")
         if any(c["kwargs"] for c in calls):
             labels.append("kwargs")
+        for c in calls:
+            if c.get("guard") is not None:
+                labels.append("call-under-guard:%d" % c["guard"])
         if any('"rep"' in json.dumps(c) or '"same"' in json.dumps(c) for c in calls):
             labels.append("aliased-containers")
         if any(('"%s"' % k) in json.dumps(c) for c in calls for k in ("ntuple", "odict", "dlist")):
